@@ -42,6 +42,7 @@ type driverCfg struct {
 	cases     int64
 	wall      time.Duration
 	caseTimeo time.Duration
+	dumpKnown string
 }
 
 func startWorker(id int, cfg *driverCfg) (*workerProc, error) {
@@ -182,6 +183,10 @@ type knownFinding struct {
 	Sig      string `json:"sig"`
 	What     string `json:"what"`
 	Commit   string `json:"commit,omitempty"`
+	// Neutralise names a counterfactual transformation (neutralise.go): the finding explains a failing case only
+	// if the same clause no longer fails once the transformation has been applied to that very case.
+	Neutralise string `json:"neutralise,omitempty"`
+	ID         string `json:"id,omitempty"`
 }
 
 type knownFile struct {
@@ -201,10 +206,55 @@ func loadKnown(p string) []knownFinding {
 	return kf.Findings
 }
 
+func sigMatches(pattern, sig string) bool {
+	if pattern == "*" {
+		return true
+	}
+	if strings.HasSuffix(pattern, "*") {
+		return strings.HasPrefix(sig, strings.TrimSuffix(pattern, "*"))
+	}
+	return pattern == sig
+}
+
+// matchKnown: exact entries only (no counterfactual run needed).
 func matchKnown(known []knownFinding, f Failure) *knownFinding {
 	for i := range known {
 		k := &known[i]
-		if k.Status == "open" && k.Property == f.Property && k.Clause == f.Clause && k.Sig == f.Sig {
+		if k.Status == "open" && k.Neutralise == "" && k.Property == f.Property && k.Clause == f.Clause && sigMatches(k.Sig, f.Sig) {
+			return k
+		}
+	}
+	return nil
+}
+
+// explain attributes a failing case to a known finding, running the counterfactual where the finding asks for it.
+func explain(known []knownFinding, f Failure, c *Case, run *caseRunner) *knownFinding {
+	if k := matchKnown(known, f); k != nil {
+		return k
+	}
+	if c == nil {
+		return nil
+	}
+	for i := range known {
+		k := &known[i]
+		if k.Status != "open" || k.Neutralise == "" || k.Property != f.Property || !(k.Clause == "*" || k.Clause == f.Clause) || !sigMatches(k.Sig, f.Sig) {
+			continue
+		}
+		nc, changed := neutralise(k.Neutralise, c)
+		if !changed {
+			continue
+		}
+		v := run.run(nc)
+		if v == nil || v.Infra != "" {
+			continue
+		}
+		still := false
+		for _, g := range v.Failures {
+			if g.Property == f.Property && g.Clause == f.Clause {
+				still = true
+			}
+		}
+		if !still {
 			return k
 		}
 	}
@@ -221,7 +271,7 @@ func tierFor(prop, tier string) tierSpec {
 		"C01": {1400, 75 * time.Second}, "C02": {1400, 75 * time.Second}, "C03": {1200, 75 * time.Second},
 		"C04": {1600, 75 * time.Second}, "C05": {1200, 75 * time.Second}, "C06": {1400, 75 * time.Second},
 		"C07": {700, 90 * time.Second}, "C08": {1000, 75 * time.Second}, "C10": {1400, 75 * time.Second},
-		"C09": {500, 110 * time.Second}, "C16": {1500, 90 * time.Second},
+		"C09": {500, 110 * time.Second}, "C16": {1000, 90 * time.Second},
 		"C17": {20000, 45 * time.Second}, "C18": {20000, 45 * time.Second},
 	}
 	thorough := map[string]tierSpec{
@@ -317,6 +367,7 @@ func driveMain(args []string) int {
 	fs.IntVar(&cfg.maxprocs, "maxprocs", 0, "GOMAXPROCS for workers")
 	fs.Int64Var(&cfg.cases, "cases", 0, "override case count")
 	fs.DurationVar(&cfg.wall, "wall", 0, "override wall-clock cap")
+	fs.StringVar(&cfg.dumpKnown, "dumpknown", "", "debugging aid: directory receiving one explained case per (known finding, clause, sig)")
 	fs.Parse(args)
 	ts := tierFor(cfg.prop, cfg.tier)
 	if ts.cases == 0 {
@@ -409,7 +460,7 @@ func driveMain(args []string) int {
 				}
 				ninfra := len(agg.infra)
 				agg.mu.Unlock()
-				if nf >= 12 || ninfra > 0 {
+				if nf >= 400 || ninfra > 0 {
 					stopOnce.Do(func() { close(stopDispatch) })
 				}
 			}
@@ -427,27 +478,79 @@ func driveMain(args []string) int {
 		return 2
 	}
 
-	// group failures of the target property by (clause, sig); keep the lowest-index case of each group
+	// attribute every failing case either to a known finding (exact match, or counterfactual run) or to nobody
+	sort.SliceStable(agg.fails, func(i, j int) bool {
+		ci, cj := agg.fails[i].c, agg.fails[j].c
+		if ci == nil || cj == nil {
+			return cj == nil && ci != nil
+		}
+		return ci.Index < cj.Index
+	})
 	type group struct {
 		f     Failure
 		c     *Case
 		count int
 	}
 	groups := map[string]*group{}
+	knownHit := map[string]int{}
+	knownWhat := map[string]string{}
+	var runner *caseRunner
+	explained, checkedCF := 0, 0
+	assumed := map[string]*knownFinding{} // clause|sig -> finding that explained every examined member so far
+	mixed := map[string]bool{}
 	for _, fr := range agg.fails {
 		if fr.f.Property != cfg.prop {
 			continue
 		}
+		if fr.c == nil {
+			fmt.Fprintln(os.Stderr, "simh: INFRASTRUCTURE: failing verdict without case")
+			return 2
+		}
+		if runner == nil {
+			runner = newCaseRunner(cfg)
+			defer runner.close()
+		}
 		key := fr.f.Clause + "|" + fr.f.Sig
+		var kf *knownFinding
+		if checkedCF < 600 || assumed[key] == nil || mixed[key] {
+			kf = explain(known, fr.f, fr.c, runner)
+			checkedCF++
+			if kf != nil && assumed[key] == nil {
+				assumed[key] = kf
+			}
+			if kf == nil {
+				mixed[key] = true
+			}
+		} else {
+			kf = assumed[key] // budget exhausted and every examined member of this group was explained by the same finding
+			agg.counters["known_finding_assumed_without_counterfactual"]++
+		}
+		if kf != nil {
+			id := kf.ID
+			if id == "" {
+				id = kf.Clause + "|" + kf.Sig + "|" + kf.Neutralise
+			}
+			knownHit[id]++
+			knownWhat[id] = kf.What
+			explained++
+			if cfg.dumpKnown != "" {
+				dk := fmt.Sprintf("%s/%s-%s-%016x.json", cfg.dumpKnown, cfg.prop, strings.ReplaceAll(id, "|", "_"), hashStr(key))
+				if _, err := os.Stat(dk); err != nil {
+					os.MkdirAll(cfg.dumpKnown, 0o755)
+					fc := cloneCase(fr.c)
+					fc.Clause, fc.Detail = fr.f.Clause, fr.f.Detail+" [sig="+fr.f.Sig+"]"
+					cb, _ := json.MarshalIndent(fc, "", " ")
+					os.WriteFile(dk, cb, 0o644)
+				}
+			}
+			continue
+		}
 		g, ok := groups[key]
 		if !ok {
 			groups[key] = &group{f: fr.f, c: fr.c, count: 1}
 			continue
 		}
 		g.count++
-		if fr.c != nil && (g.c == nil || fr.c.Index < g.c.Index) {
-			g.f, g.c = fr.f, fr.c
-		}
 	}
 	gkeys := make([]string, 0, len(groups))
 	for k := range groups {
@@ -456,25 +559,13 @@ func driveMain(args []string) int {
 	sort.Strings(gkeys)
 
 	violations := 0
-	knownHit := map[string]int{}
 	var out bytes.Buffer
+	for _, id := range sortedKeysInt(knownHit) {
+		fmt.Fprintf(&out, "KNOWN-FINDING: property=%s %s [%s, %d case(s) in this run]\n", cfg.prop, knownWhat[id], id, knownHit[id])
+	}
 	minimised := 0
-	var runner *caseRunner
 	for _, k := range gkeys {
 		g := groups[k]
-		if kf := matchKnown(known, g.f); kf != nil {
-			knownHit[kf.Clause+"|"+kf.Sig] += g.count
-			fmt.Fprintf(&out, "KNOWN-FINDING: property=%s %s [clause=%s sig=%s, %d case(s) in this run]\n", cfg.prop, kf.What, kf.Clause, kf.Sig, g.count)
-			continue
-		}
-		if g.c == nil {
-			fmt.Fprintln(os.Stderr, "simh: INFRASTRUCTURE: failing verdict without case")
-			return 2
-		}
-		if runner == nil {
-			runner = newCaseRunner(cfg)
-			defer runner.close()
-		}
 		final := g.c
 		final.Clause, final.Detail = g.f.Clause, g.f.Detail
 		// confirm the original in a fresh process first
@@ -486,7 +577,7 @@ func driveMain(args []string) int {
 		}
 		if minimised < 4 {
 			minimised++
-			m := minimise(final, g.f, runner, 90*time.Second)
+			m := minimise(final, g.f, runner, 90*time.Second, known)
 			mv := runner.runFresh(m)
 			if mf := sameFailure(mv, g.f); mf != nil {
 				final = m
@@ -517,6 +608,15 @@ func driveMain(args []string) int {
 		return 1
 	}
 	return 0
+}
+
+func sortedKeysInt(m map[string]int) []string {
+	keys := make([]string, 0, len(m))
+	for k := range m {
+		keys = append(keys, k)
+	}
+	sort.Strings(keys)
+	return keys
 }
 
 func sameFailure(v *Verdict, f Failure) *Failure {
